@@ -885,7 +885,12 @@ J_humanize(e) ==
             \o V("phrase", p.v \in cands, cands))
 J_in_words(e) ==
   LET a == e.a  p == e.post  L == LOC[a.locale]
-      want == InWordsR(L, a.comps, a.sep, 1)
+      \* the components a Duration must spell are computed by the specification from its constructor arguments (C09);
+      \* those of an Interval are the library's own decomposition (judged by C06)
+      own == IF a.entry = "duration"
+             THEN LET g == e.pre[1].args  b == Breakdown(RestOf(g)) IN <<g.y, g.mo, b[1], b[2], b[3], b[4], b[5]>>
+             ELSE a.comps
+      want == InWordsR(L, own, a.sep, 1)
   IN R(<<a.entry, a.locale, B(want = <<>>)>>,
        IF p.k = "exc" THEN << <<"unexpected-exception", p.names>> >>
        ELSE IF p.k # "str" THEN << <<"kind", p.k>> >>
